@@ -449,6 +449,16 @@ def check_streams(log, mon):
                 delivered[str(cmd.out_tensor.equivalence_id)] = (d["dst"], d["length"], depth)
             elif ev.kind == "op" and isinstance(cmd, NpuStripe) and cmd.weight_tensor is not None and cmd.weight_box is not None:
                 F = decode.Fields(ev.op)
+                # the scale section an operation is programmed with holds one 10-byte record per output channel that this operation (this depth slice, this core) writes
+                z0, z1 = int(cmd.ofm_box.start_coord[-1]), int(cmd.ofm_box.end_coord[-1])
+                scl = [ln for (_, ln) in (getattr(F, "scales", None) or [])]
+                if scl and z1 > z0 and F.kind in ("conv", "depthwise"):
+                    c["scale_sections_checked"] = c.get("scale_sections_checked", 0) + 1
+                    exp = [wsref.round_up(10 * len(range(core, z1 - z0, ncores)), 16) for core in range(ncores)]
+                    exp = [e for e in exp if e]
+                    if sorted(x for x in scl if x) != sorted(exp):
+                        mon.v("scale-section-length-differs-from-the-channels-written", "%s writes OFM channels [%d,%d) on %d core(s): scale section lengths %s, one record per channel needs %s" % (
+                            cmd.ps.primary_op.name, z0, z1, ncores, scl, exp))
                 got = delivered.get(str(cmd.weight_tensor.equivalence_id))
                 if got is None or not getattr(F, "weights", None):
                     continue
